@@ -105,7 +105,11 @@ class Renderer(object):
                 # content lines are indented at least as far as the opening quotes; relative
                 # indentation inside the text is part of the text itself
                 self.raw((ind + ln) if ln.strip() or ln else ln)
-            self.raw(ind + q)
+            cind = ind
+            if self.layout and self.rng.random() < 0.3:
+                # the closing delimiter does not have to be aligned with the opening one (only the opening column matters)
+                cind = " " * self.rng.choice([0, 1, 4, 8, 12])
+            self.raw(cind + q)
         if st.get("table") is not None:
             self.table(st["table"], key + ("table",), indent + 2)
 
